@@ -42,12 +42,12 @@ RULE = ("all shapes up to 4 nodes, root start, every stop subset x every filtere
         "Distinct = distinct case; non-trivial = start subtree >= 3 nodes and at least one restriction active.")
 
 
-_CLS = ["nm", "light", "eq", "falsy"]
+_CLS = ["nm", "light", "eq", "falsy", "shadow"]
 
 
 def _case(t, start, k, fo, st, m):
     return {"fam": "iter", "tree": t, "start": start, "kind": k, "filter_out": fo, "stop": st, "maxlevel": m,
-            "cls": _CLS[(len(fo) + len(st) + start) % 4]}
+            "cls": _CLS[(len(fo) + len(st) + start) % 5]}
 
 
 def generate(tier, rng):
